@@ -4,7 +4,7 @@ from __future__ import annotations
 import html
 
 from vt import util
-from vt.gen import corpus, stmtgen
+from vt.gen import corpus, jast, stmtgen
 
 PID = "C16"
 LEVEL = "exploration"
@@ -26,11 +26,13 @@ FLOORS = {
     "quick": {"evaluations": 2500, "distinct": 400,
               "counters": {"outputs_with_entities": 800, "via_macro": 100, "via_setblock": 50,
                            "via_super_or_self": 100, "via_include": 100, "via_import_macro": 50,
-                           "fragment_through_filter": 30, "plain_tilde_fragment": 30}},
+                           "fragment_through_filter": 30, "plain_tilde_fragment": 30,
+                           "local_autoescape_block_renders": 500}},
     "thorough": {"evaluations": 50000, "distinct": 6000,
                  "counters": {"outputs_with_entities": 16000, "via_macro": 2000, "via_setblock": 1000,
                               "via_super_or_self": 2000, "via_include": 2000, "via_import_macro": 1000,
-                              "fragment_through_filter": 600, "plain_tilde_fragment": 600}},
+                              "fragment_through_filter": 600, "plain_tilde_fragment": 600,
+                              "local_autoescape_block_renders": 10000}},
 }
 
 # every value has a raw metacharacter (over-escaping shows) AND entity-like text
@@ -61,6 +63,63 @@ def heat(case, rng):
     return case
 
 
+def contains_block(st):
+    found = []
+    jast.walk_stmts([st], lambda x: found.append(1) if x[0] == "block" else None)
+    return bool(found)
+
+
+def localize(body, flag):
+    """Switch escaping on LOCALLY: wrap runs of statements in {% autoescape flag %}.  A block is
+    never put inside an autoescape block (blocks inside autoescape blocks are a recorded C15
+    finding); block bodies are wrapped from the inside instead."""
+    out, run = [], []
+
+    def flush():
+        if run:
+            out.append(["autoescape", flag, list(run)])
+            del run[:]
+
+    for st in body:
+        k = st[0]
+        if k == "extends" or (k == "if" and any(x[0] == "extends" for _, b in st[1] for x in b)):
+            flush()
+            out.append(st)
+        elif k == "block":
+            flush()
+            out.append(["block", st[1], localize(st[2], flag), st[3], st[4]])
+        elif contains_block(st):
+            flush()
+            st = list(st)
+            if k == "if":
+                st[1] = [[c, localize(b, flag)] for c, b in st[1]]
+                st[2] = None if st[2] is None else localize(st[2], flag)
+            elif k == "for":
+                st[3] = localize(st[3], flag)
+                st[4] = None if st[4] is None else localize(st[4], flag)
+            elif k == "with":
+                st[2] = localize(st[2], flag)
+            out.append(st)
+        else:
+            run.append(st)
+    flush()
+    return out
+
+
+def render_local(case, runtime_flag, is_async):
+    """Environment autoescape OFF, escaping switched on inside the templates."""
+    flag = ["name", "aeflag"] if runtime_flag else ["const", True]
+    c2 = dict(case)
+    c2["asts"] = {n: localize(b, flag) for n, b in case["asts"].items()}
+    env = corpus.make_env(c2, autoescape=False, enable_async=is_async)
+
+    def f():
+        d = corpus.realize_data(c2, env)
+        d["aeflag"] = True
+        return env.get_template(c2["main"]).render(d)
+    return util.capture(f), c2
+
+
 def render(case, autoescape, is_async):
     env = corpus.make_env(case, autoescape=autoescape, enable_async=is_async)
     return util.capture(lambda: env.get_template(case["main"]).render(corpus.realize_data(case, env)))
@@ -82,6 +141,19 @@ def check_case(ctx, case, is_async):
             bad = f"on {on!r} / off {off!r}"
     else:
         bad = f"on {on!r} / off {off!r}"
+    if not bad and on.ok and off.ok and case["kind"] in ("stmt", "expr", "loop", "inherit"):
+        for runtime_flag in (False, True):
+            lo, c2 = render_local(case, runtime_flag, is_async)
+            ctx.ev()
+            ctx.count("local_autoescape_block_renders")
+            ok = lo.ok and html.unescape(lo.value) == off.value
+            if not ok:
+                mode = "runtime-flag" if runtime_flag else "static"
+                ctx.violation("escape-once:local-autoescape-block:" + mode + ":" + case["kind"],
+                              f"environment autoescape off + {{% autoescape {'flag' if runtime_flag else 'true'} %}} regions: "
+                              f"{lo!r}; unescaped once it must equal the autoescape-off render {off.value!r} | "
+                              f"sources={corpus.sources(c2)}", {"case": case, "async": is_async})
+                break
     if bad:
         srcs = corpus.sources(case)
         feats = sorted(f for f in ("macro", "call ", "set ", "super()", "self.", "include", "import", "filter ")
